@@ -53,6 +53,17 @@ def handleRange (st : St) (op : String) (j : Json) : Option (D (St × Json)) :=
       | .error .raises => eRaises
       | .error .outOfFuel => Json.mkObj [("err", "outOfFuel")]
       | .error .negInsert => Json.mkObj [("err", "negInsert")])
+  | "deleteRangeStep" => some do
+    let S ← getSchema st j
+    let d ← node (← field j "doc")
+    let f ← nat (← field j "from")
+    let t ← nat (← field j "to")
+    return (st, match deleteRangeStep S d f t with
+      | .ok none => ok (Json.arr #[Json.str "none"])
+      | .ok (some s) => ok (Json.arr #[Json.str "step", eStep s])
+      | .error .raises => eRaises
+      | .error .outOfFuel => Json.mkObj [("err", "outOfFuel")]
+      | .error .negInsert => Json.mkObj [("err", "negInsert")])
   | "fillBeforeO" => some do
     let S ← getSchema st j
     let dfa := S.dfa (← nat (← field j "ty"))
